@@ -6,7 +6,7 @@ from . import cachegen as cg
 ID = "C05"
 DRIVER = "cache"
 COQ_TARGETS = ["Properties/C05.vo"]
-THEOREMS = ["C05_never_served_expired", "C05_ttl_not_exceeding_remaining", "C05_ttl0_not_stored_step", "C05_ttl0_not_stored", "C05_reinsert_restarts_no_duplicate", "C05_live_record_is_returned", "C05_last_second_withheld", "C05_step_refines"]
+THEOREMS = ["C05_never_served_expired", "C05_ttl_not_exceeding_remaining", "C05_ttl0_not_stored_step", "C05_ttl0_not_stored", "C05_reinsert_restarts_no_duplicate", "C05_live_record_is_returned", "C05_last_second_withheld", "C05_step_refines", "C05_concurrent_get_is_live"]
 RULE = (cg.RULE_GEN + "; non-trivial = distinct history with at least 3 operations other than clock steps")
 ASSUMPTIONS = [
     "thread schedules and std::sync::Mutex are not modelled: every SharedCache method is one critical section",
